@@ -196,10 +196,16 @@ func (y *Yaml) GetMapKeys() ([]string, error) {
 	if err != nil {
 		return nil, err
 	}
-	keys := make([]string, 0)
-	for k := range m {
-		keys = append(keys, k)
-
+	// keys are returned in document order (each key once): ranging over the Go map would yield a
+	// different order on every call and the generated code depends on the order constraints are parsed in
+	keys := make([]string, 0, len(m))
+	seen := make(map[string]bool, len(m))
+	for i := 0; i < len(y.data.Content); i += 2 {
+		k := y.data.Content[i].Value
+		if !seen[k] {
+			seen[k] = true
+			keys = append(keys, k)
+		}
 	}
 	return keys, nil
 }
